@@ -301,31 +301,52 @@ OPSYM = {"add": "+", "sub": "-", "mul": "*", "div": "/"}
 NUMS = ("int", "float")
 
 
-def operand(c, O, K, name, u, tag):
-    """K a kind or 'int'/'float'. -> (object, SI magnitude, raw value) or None"""
+def operand(c, O, K, name, u, tag, via=None):
+    """K a kind or 'int'/'float'. -> (object, SI magnitude, raw value) or None.
+    via: the operand has a HISTORY -- it was constructed in unit `via` and converted in place to `u` before being used
+    (an operator must see the object's current state, not something remembered from its construction)."""
     if K in NUMS:
         v = c.real(name, pytype=K, relax=True)
         return v, L.num(v), v
     v = c.real(name)
-    q = construct(c, O, K, v, u, tag)
+    if via is None or via == u:
+        q = construct(c, O, K, v, u, tag)
+        if q is None:
+            return None
+        return q, si(K, v, u), v
+    q = construct(c, O, K, v, via, tag)
     if q is None:
         return None
-    return q, si(K, v, u), v
+    try:
+        r = q.to(u, inplace=True)
+    except (TypeError, ValueError, KeyError) as e:
+        O.fail(f"{tag}:in-place-conversion-of-a-valid-quantity-succeeds", props=("C05", "C19"), note=repr(e))
+        return None
+    O.prove(f"{tag}:in-place-conversion-returns-the-same-object-in-the-target-unit", r is q and q.unit == u, props=("C05",))
+    X = si(K, v, via)
+    return q, X, L.div(X, f_spec(K, u))
+
+
+def _other_unit(K, u):
+    if K in NUMS:
+        return None
+    us = [x for x in code_units(K) if x != u]
+    return us[-1] if us else None
 
 
 def spec_kind(K):
     return spec.NUM if K in NUMS else K
 
 
-def job_op(op, Ka, Kb, ua, ub):
+def job_op(op, Ka, Kb, ua, ub, history=False):
     expected = spec.dimension(op, spec_kind(Ka), spec_kind(Kb))
     constrained = [k for k in (Ka, Kb, expected) if k in spec.SIGN]
 
     def body(c, O):
-        A = operand(c, O, Ka, "x", ua, "a")
+        A = operand(c, O, Ka, "x", ua, "a", via=_other_unit(Ka, ua) if history else None)
         if A is None:
             return
-        B = operand(c, O, Kb, "y", ub, "b")
+        B = operand(c, O, Kb, "y", ub, "b", via=_other_unit(Kb, ub) if history else None)
         if B is None:
             return
         a, X, x = A
@@ -390,7 +411,7 @@ def job_op(op, Ka, Kb, ua, ub):
                 O.prove("op:SI-magnitude", goal, props=("C06", "C07"))
         _frames(O, a, sa, b, sb)
 
-    return Job(f"units.op[{_nm(Ka, ua)} {OPSYM[op]} {_nm(Kb, ub)}]", body, ("C06", "C07", "C19"),
+    return Job(f"units.op[{_nm(Ka, ua)} {OPSYM[op]} {_nm(Kb, ub)}{',operands-converted-in-place-beforehand' if history else ''}]", body, ("C06", "C07", "C19"),
                functions=[f"gearpy.units.units.{K}.__{n}__" for K in (Ka, Kb) if K not in NUMS
                           for n in _dunder(op)],
                meta=dict(family="op", op=op, Ka=Ka, Kb=Kb, ua=ua, ub=ub, expected=str(expected)))
@@ -574,6 +595,9 @@ def all_jobs(exact_tables=None):
                 for ua in uas:
                     for ub in ubs:
                         jobs.append(job_op(op, Ka, Kb, ua, ub))
+                if exp != "TypeError":
+                    # the same operation on operands that were converted in place before (one unit pair per kind pair)
+                    jobs.append(job_op(op, Ka, Kb, uas[0], ubs[-1], history=True))
     for (Ka, Kb) in admissible_cmp_pairs():
         for ua in code_units(Ka):
             for ub in code_units(Kb):
